@@ -202,7 +202,7 @@ func runC18(c *Ctx) {
 		// other legal ways to get the bundled port device: a zero value configured through
 		// its setters, and a by-value copy of a constructed one (the original is then
 		// configured with a writer of its own that must stay silent)
-		var origOut, origWarn bytes.Buffer
+		var origOut, origWarn lockedBuf
 		var origIO *tinycpm.IO
 		switch pi % 16 {
 		case 5:
@@ -228,7 +228,7 @@ func runC18(c *Ctx) {
 		// a second machine configured while this one is alive: its writer and logger
 		// must never see this machine's traffic
 		_, otherIO := tinycpm.New()
-		var otherOut, otherWarn bytes.Buffer
+		var otherOut, otherWarn lockedBuf
 		// every third shard loads a second program into the same machine and runs it on
 		// the same CPU object after the first one has ended halted
 		nrounds := 1
@@ -243,7 +243,7 @@ func runC18(c *Ctx) {
 					mem.Set(0x0100+uint16(i), b)
 				}
 			}
-			var out, warn bytes.Buffer
+			var out, warn lockedBuf
 			// a writer that refuses exactly one Write call (transient host error) and works
 			// again afterwards: what the program prints later must still be offered to it
 			var flaky *flakyWriter
@@ -521,14 +521,44 @@ var directRun = map[*z80.CPU]bool{}
 var directRunMu sync.Mutex
 
 // plainWriter hides every method of the underlying buffer except Write.
-type plainWriter struct{ w *bytes.Buffer }
+// lockedBuf is the writer handed to the machines: a buffer that stays sane when a
+// defect makes several machines (driven from several goroutines) write to it at once
+// - the monitor's own state must not become the casualty of the race it is there to see.
+type lockedBuf struct {
+	mu sync.Mutex
+	b  bytes.Buffer
+}
+
+func (l *lockedBuf) Write(p []byte) (int, error) {
+	l.mu.Lock()
+	defer l.mu.Unlock()
+	return l.b.Write(p)
+}
+func (l *lockedBuf) WriteByte(c byte) error {
+	l.mu.Lock()
+	defer l.mu.Unlock()
+	return l.b.WriteByte(c)
+}
+func (l *lockedBuf) Bytes() []byte {
+	l.mu.Lock()
+	defer l.mu.Unlock()
+	return append([]byte(nil), l.b.Bytes()...)
+}
+func (l *lockedBuf) String() string { return string(l.Bytes()) }
+func (l *lockedBuf) Len() int {
+	l.mu.Lock()
+	defer l.mu.Unlock()
+	return l.b.Len()
+}
+
+type plainWriter struct{ w *lockedBuf }
 
 func (p plainWriter) Write(b []byte) (int, error) { return p.w.Write(b) }
 
 // flakyWriter refuses its failAt-th Write call (nothing accepted, an error returned)
 // and passes every other call on.
 type flakyWriter struct {
-	w       *bytes.Buffer
+	w       *lockedBuf
 	calls   int
 	failAt  int
 	failed  bool
